@@ -122,6 +122,10 @@ DetList == <<
    [DT(<<"per", "mul2">>, <<2048>>, <<[width |-> 1, rands |-> 1, src |-> <<0>>]>>, 12) EXCEPT !.blowup = 4, !.ext = 2],  \* 4096 * 2 = 8192
    \* wide traces: 3 and 5 row-major segments of 8 columns (segment counts that are not powers of two)
    \* over small LDE domains (1024 / 2048 rows), where the matrix transposition is split into batches
+   \* single segment, constraint-evaluation domain 4096 * 2 = 8192 (evaluated in fragments), sequence and
+   \* periodic assertions (boundary constraints whose value depends on the step)
+   [DT(<<"sum", "mul2">>, <<>>, <<>>, 12) EXCEPT !.asserts = <<Single(0, 0), SeqA(1, 1, 4, 1024)>>],
+   [DT(<<"pcol", "mul2", "sum">>, <<64>>, <<>>, 12) EXCEPT !.asserts = <<PerA(0, 3, 64), SeqA(2, 0, 2048, 2), Single(1, 4095)>>, !.ext = 2],
    DT(Wide(20), <<>>, <<>>, 7),
    [DT(Wide(40), <<>>, Aux3, 8) EXCEPT !.ext = 2]
 >>
